@@ -406,7 +406,7 @@ def pred_c04(ops, impl):
             if not evs or evs[0][0] != want or not evs[0][1] or evs[0][1][0][0] != "_contract_address":
                 return "op %d: first event must be `%s` carrying the contract address, got %s" % (n, want, parts[1][:120])
     import pred_wasm2
-    return pred_wasm2.data_rule(ops, impl)
+    return pred_wasm2.own_events_unchanged(ops, impl) or pred_wasm2.data_rule(ops, impl)
 
 
 def pred_c05(ops, impl):
@@ -620,7 +620,8 @@ def pred_c13(ops, impl):
         if isinstance(script, list) and any(action_malformed(a) for a in script):
             if out.startswith("ok"):
                 return "op %d `%s`: the contract's response is malformed (or it fails) yet the call returned Ok" % (n, op[:160])
-    return pred_c02(ops, impl)
+    import pred_wasm2
+    return pred_wasm2.own_events_unchanged(ops, impl) or pred_c02(ops, impl)
 
 
 def pred_c08(ops, impl):
